@@ -8,7 +8,7 @@
 (*   lab  label criterion on label "a":  none | eq (="x") | present |      *)
 (*        absent | cb (callback: value = "x")                              *)
 (*   val  field/value criterion on spec.f: none | field (field= only) |    *)
-(*        eq1 | present | absent | cb_eq1 | cb_none (callback: v is None)  *)
+(*        eq1 | eq3 (= False) | present | absent | cb_eq1 | cb_none        *)
 (*   old, new  transition criteria (update/field only): none | eq1 | eq2 | *)
 (*        present | absent                                                 *)
 (*   when  none | T | F                                                    *)
@@ -37,6 +37,7 @@ ValCrit(c, v, sentinel) ==
     [] c = "absent" -> v = 0
     [] c = "eq1" -> v = 1
     [] c = "eq2" -> v = 2
+    [] c = "eq3" -> v = 3              \* the literal False: a criterion that is itself falsy is a criterion nevertheless
     [] c = "cb_eq1" -> v = 1
     [] c = "cb_none" -> IF sentinel THEN FALSE ELSE v = 0
 
